@@ -40,7 +40,7 @@ func Source(r *gen.Rand) string {
 	case 2:
 		lit = pick(numFrags, r.Range(1, 3))
 	default:
-		lit = "a" + pick([]string{"\\u0062", "\\u", "\\u00", "\\u0020", "\\uD83D\\uDE00", "\\", "\\x41", "b", "\u00e9", "\\u00e9", "\\u200c", "\\u0030"}, r.Range(1, 3))
+		lit = "a" + pick([]string{"\\u0062", "\\u", "\\u00", "\\u0020", "\\uD83D\\uDE00", "\\", "\\x41", "b", "\u00e9", "\\u00e9", "\\u200c", "\\u0030", "\u0300", ".b\u0300", ".\u0300", "\u200d", ".b\u200c", ".\\u0030", ".b\\u", "[\u0300]", ".\u00e9"}, r.Range(1, 3))
 	}
 	return fmt.Sprintf([]string{"x = %s;", "%s", "f(%s)", "var y = %s, z;", "x = {a: %s};", "x = [%s];", "if (%s) ;", "x = %s\ny"}[r.Intn(8)], lit)
 }
